@@ -11,6 +11,9 @@ use soroban_sdk::{Address, Env, Flat, Vec};
 pub mod claim_issuer;
 pub mod cti;
 pub mod binder;
+pub mod compliance;
+pub mod docs;
+pub mod irs;
 
 /// stored entry equal up to its TTL (reads extend the TTL of what they touch); an absent entry has no value
 pub fn same_entry(a: &Slot, b: &Slot) -> bool {
